@@ -93,7 +93,7 @@ def fixes_table():
 
 
 VERDICT = {
-    'C01': 'PARTIAL: VM instruction kernel + dispatch, runtime hooks, translator op structure',
+    'C01': 'PARTIAL: VM instruction kernel + dispatch, runtime hooks, translator op structure, both format template parsers + the `@{..}` group scan',
     'C02': '**DECIDED** (token list -> operand list -> tree, every length)',
     'C03': 'PARTIAL: Val -> format value mappers, lowering, out/convert hook',
     'C04': 'PARTIAL: panic-freedom + termination of every extracted function',
